@@ -84,6 +84,7 @@ class Framer(tasking.Tasker):
         super(Framer,self).__init__(**kw) #status = STOPPED  make runner advance so can send cmd
 
         self.main = None  #when aux framer, frame that is running this aux
+        self.source = None  # when clone, the framer this one was cloned from
         self.original = True  # as in not a clone
         self.insular = False  # as in a clone that is visible only to the main framer
         self.razeable = False  # as in a clone that can be explicitly razed at run time
@@ -169,6 +170,7 @@ class Framer(tasking.Tasker):
         console.terse("         Cloning contents of Framer original '{0}' to clone '{1}'\n"
                         "".format(self.name, clone.name))
         clone.schedule = schedule
+        clone.source = self
         clone.first = self.first # resolve later
         clone.moots = copy.deepcopy(self.moots)
         clone.inode = self.inode
@@ -295,6 +297,17 @@ class Framer(tasking.Tasker):
                                      contexts=[MOOT],
                                      human=human,
                                      count=count)
+
+            # a clone must not clone the framer it (or one of its main framers) was cloned from
+            framer = self
+            while framer is not None and not framer.original:
+                if framer.source is original:
+                    raise excepting.ResolveError("Recursive clone of moot framer",
+                                                 name=original.name,
+                                                 value=self.name,
+                                                 human=human,
+                                                 count=count )
+                framer = framer.main.framer if isinstance(framer.main, Frame) else None
 
             if tag in self.auxes:  # tag must be unique to framer
                 raise excepting.ResolveError("Clone tag already in use",
